@@ -199,7 +199,7 @@ class HumanoidStandup(AbstractMujocoEnv[Float[Array, "..."], Float[Array, "..."]
     ) -> Float[Array, ""]:
         data = next_state.sim_state
 
-        uph_cost = self.uph_cost_weight * (data.qpos[2] / self.dt)
+        uph_cost = self.uph_cost_weight * (data.qpos[2] / self.model.opt.timestep)
         ctrl_cost = self.ctrl_cost_weight * jnp.sum(jnp.square(data.ctrl))
         impact_cost = self.impact_cost(data)
 
@@ -228,7 +228,7 @@ class HumanoidStandup(AbstractMujocoEnv[Float[Array, "..."], Float[Array, "..."]
     ) -> dict:
         data = next_state.sim_state
 
-        uph_cost = self.uph_cost_weight * (data.qpos[2] / self.dt)
+        uph_cost = self.uph_cost_weight * (data.qpos[2] / self.model.opt.timestep)
         ctrl_cost = self.ctrl_cost_weight * jnp.sum(jnp.square(data.ctrl))
         impact_cost = self.impact_cost(data)
 
